@@ -213,7 +213,7 @@ structure FrameIs (t : Trust) (e : Exp) (f : Frame) : Prop where
   vip : f.ctx.hasLit "eip" = true
   vsp : f.ctx.hasLit "esp" = true
   fp : e.fp = if f.ctx.hasLit "ebp" then some (f.ctx.raw .x86 "ebp") else none
-  regs : ∀ p ∈ e.regs, f.ctx.hasLit p.1 = true ∧ f.ctx.raw .x86 p.1 = p.2
+  regs : ∀ p ∈ e.regs, p.1 ∈ x86Regs ∧ f.ctx.hasLit p.1 = true ∧ f.ctx.raw .x86 p.1 = p.2
   wf : ∀ r ∈ x86Regs, f.ctx.raw .x86 r ≤ U32MAX
   m64 : f.ctx.m64 = false
 
@@ -242,7 +242,7 @@ theorem step_of_callerOut {env : Env} {mem : Mem} {f : Frame} {g : Option Frame}
       simp only [Option.getD_some, u32_toNat_ofNat hv]
     · intro p hp
       obtain ⟨h1, h2, h3, h4⟩ := ho.regs p hp
-      constructor
+      refine ⟨h1, ?_, ?_⟩
       · simp only [ctxOfCaller_hasLit, List.contains_iff_mem, h3]
       · rw [ctxOfCaller_raw c' h1, h4]
         simp only [Option.getD_some, u32_toNat_ofNat h2]
